@@ -387,7 +387,8 @@ OPNMIDI_EXPORT void opn2_setScaleModulators(OPN2_MIDIPlayer *device, int smod)
     MidiPlayer *play = GET_MIDI_PLAYER(device);
     assert(play);
     play->m_setup.ScaleModulators = smod;
-    play->m_synth->m_scaleModulators = (play->m_setup.ScaleModulators != 0);
+    // -1 selects the bank default, and no bank format carries this flag: off
+    play->m_synth->m_scaleModulators = (play->m_setup.ScaleModulators > 0);
 }
 
 OPNMIDI_EXPORT void opn2_setFullRangeBrightness(struct OPN2_MIDIPlayer *device, int fr_brightness)
